@@ -559,3 +559,107 @@ func onceObligations(l *loaded, run *PropRun) {
 		run.Extra[len(run.Extra)-1].Model = "no package-level variable is initialised under sync.Once any more: the obligation no longer binds"
 	}
 }
+
+// initialiserCallObligation: the global-write obligations exempt the functions listed in initWriters by name ("runs under
+// init or sync.Once before any result is observable"). That exemption is justified only if it is true of every use of
+// such a function. Obligation: every function of the list that stores into a package-level variable is (a) called only
+// from init or from another function of the list, and (b) used as a value only as the argument of (*sync.Once).Do.
+func initialiserCallObligation(l *loaded, run *PropRun) {
+	t0 := time.Now()
+	writers := map[*ssa.Function]bool{}
+	var keys []string
+	for k := range l.funcs {
+		keys = append(keys, k)
+	}
+	sort.Strings(keys)
+	for _, k := range keys {
+		fn := l.funcs[k]
+		if fn.Pkg != l.spkg || !initWriters[fn.Name()] || fn.Name() == "init" || strings.HasPrefix(fn.Name(), "init#") {
+			continue
+		}
+		for _, b := range fn.Blocks {
+			for _, ins := range b.Instrs {
+				if st, ok := ins.(*ssa.Store); ok && globalRoot(st.Addr) != nil {
+					writers[fn] = true
+				}
+			}
+		}
+	}
+	var problems, names []string
+	for f := range writers {
+		names = append(names, f.Name())
+	}
+	sort.Strings(names)
+	for _, k := range keys {
+		fn := l.funcs[k]
+		if fn.Pkg != l.spkg || len(fn.Blocks) == 0 || strings.HasPrefix(fn.Name(), "verifLemma") {
+			continue
+		}
+		callerOK := fn.Name() == "init" || strings.HasPrefix(fn.Name(), "init#") || initWriters[fn.Name()]
+		for _, b := range fn.Blocks {
+			for _, ins := range b.Instrs {
+				where := func() string {
+					p := l.prog.Fset.Position(ins.Pos())
+					f := p.Filename
+					if j := strings.LastIndex(f, "/"); j >= 0 {
+						f = f[j+1:]
+					}
+					return fmt.Sprintf("%s (%s:%d)", fnKey(fn), f, p.Line)
+				}
+				if ci, ok := ins.(ssa.CallInstruction); ok {
+					cc := ci.Common()
+					if callee := cc.StaticCallee(); callee != nil && writers[callee] && !callerOK {
+						problems = append(problems, fmt.Sprintf("initialiser %s, which writes package-level state, is called from %s: not under init or sync.Once", callee.Name(), where()))
+					}
+					isDo := cc.StaticCallee() != nil && cc.StaticCallee().String() == "(*sync.Once).Do"
+					for ai, a := range cc.Args {
+						if f := funcValue(a); f != nil && writers[f] && !(isDo && ai == 1) {
+							problems = append(problems, fmt.Sprintf("initialiser %s is passed as a value in %s to something else than sync.Once.Do", f.Name(), where()))
+						}
+					}
+					continue
+				}
+				if _, dbg := ins.(*ssa.DebugRef); dbg {
+					continue // source-level bookkeeping, not a use
+				}
+				for _, op := range ins.Operands(nil) {
+					if op == nil || *op == nil {
+						continue
+					}
+					if f := funcValue(*op); f != nil && writers[f] {
+						problems = append(problems, fmt.Sprintf("initialiser %s escapes as a value in %s", f.Name(), where()))
+					}
+				}
+			}
+		}
+	}
+	sort.Strings(problems)
+	frameObl(run, "once/initialisers-run-only-under-init-or-once", "functions exempted from the global-write obligations as initialisers and storing into package-level variables ("+strings.Join(names, ", ")+") are called only from init or another initialiser, and passed only to sync.Once.Do", problems, time.Since(t0).Seconds())
+}
+
+func funcValue(v ssa.Value) *ssa.Function {
+	switch f := v.(type) {
+	case *ssa.Function:
+		return f
+	case *ssa.MakeClosure:
+		fn, _ := f.Fn.(*ssa.Function)
+		return fn
+	}
+	return nil
+}
+
+// globalRoot: the package-level variable an address is rooted at (through field and index selections), or nil.
+func globalRoot(v ssa.Value) *ssa.Global {
+	for {
+		switch a := v.(type) {
+		case *ssa.Global:
+			return a
+		case *ssa.FieldAddr:
+			v = a.X
+		case *ssa.IndexAddr:
+			v = a.X
+		default:
+			return nil
+		}
+	}
+}
